@@ -156,7 +156,8 @@ class Ctx:
 
     def req(self, rule, ok, prim, what, p, props=None):
         E = self.E
-        E.oblig(rule, bool(ok), prim, what + ' -- ' + p.describe(), 'refuted', sample=prim + ' ok',
+        E.oblig(rule, bool(ok), prim, what + ' -- ' + p.describe(), 'refuted',
+                sample=('required: ' + what + ' | seen: ' + p.describe()[:400]) if len(E.samples[rule]) < 6 else None,
                 props=sorted(props or self.props))
         return bool(ok)
 
@@ -851,7 +852,9 @@ class Iteration:
 
 
 def it_req(E, props, rule, ok, prim, what, it):
-    E.oblig(rule, bool(ok), prim, what + ' -- ' + it.describe(), 'refuted', sample=prim + ' ok', props=sorted(props))
+    E.oblig(rule, bool(ok), prim, what + ' -- ' + it.describe(), 'refuted',
+            sample=('required: ' + what + ' | seen: ' + it.describe()[:400]) if len(E.samples[rule]) < 6 else None,
+            props=sorted(props))
     return bool(ok)
 
 
